@@ -128,6 +128,32 @@ func (c *hintyCircuit) Define(api frontend.API) error {
 	return nil
 }
 
+// a hint that assigns only one of its four outputs
+func sparseHint(_ *big.Int, in, out []*big.Int) error {
+	k := int(new(big.Int).Mod(in[0], big.NewInt(4)).Int64())
+	out[k].Mul(in[0], in[1])
+	return nil
+}
+
+func init() { solver.RegisterHint(sparseHint) }
+
+type sparseHintCircuit struct {
+	X, Y frontend.Variable
+	Z    frontend.Variable `gnark:",public"`
+}
+
+func (c *sparseHintCircuit) Define(api frontend.API) error {
+	o, err := api.Compiler().NewHint(sparseHint, 4, c.X, c.Y)
+	if err != nil {
+		return err
+	}
+	api.AssertIsEqual(api.Add(o[0], o[1], o[2], o[3]), c.Z)
+	for i := 0; i < 60; i++ { // a wide level
+		api.AssertIsEqual(api.Mul(api.Add(c.X, i), c.Y), api.Add(api.Mul(c.X, c.Y), api.Mul(c.Y, i)))
+	}
+	return nil
+}
+
 type c10Desc struct {
 	Scenario string `json:"scenario"`
 	Detail   string `json:"detail"`
@@ -156,9 +182,14 @@ func runC10(args []string) int {
 		N, iters = 32, 40
 	}
 	// ---------------- (1) concurrent solves without stateful blueprints
-	for _, r1 := range []bool{true, false} {
+	for ci, r1 := range []bool{true, false, true, false} {
 		t := Target{"bn254", q, r1}
-		ccs, cerr := compileTarget(t, &hintyCircuit{})
+		sparse := ci >= 2 // a hint that assigns only one of its outputs: the others must not depend on earlier calls
+		var tmpl frontend.Circuit = &hintyCircuit{}
+		if sparse {
+			tmpl = &sparseHintCircuit{}
+		}
+		ccs, cerr := compileTarget(t, tmpl)
 		if cerr != "" {
 			rep.Fail("harness:compile", cerr, t.String())
 			continue
@@ -171,13 +202,26 @@ func runC10(args []string) int {
 		for k := 0; k < 12; k++ {
 			x, y := int64(rng.Intn(60000)), int64(rng.Intn(1000))
 			z := x*y + (x & 255)
+			if sparse {
+				z = x * y
+			}
 			if k%4 == 3 {
 				z++ // invalid
 			}
-			w, _ := frontend.NewWitness(&hintyCircuit{X: x, Y: y, Z: z}, q)
+			var a frontend.Circuit = &hintyCircuit{X: x, Y: y, Z: z}
+			if sparse {
+				a = &sparseHintCircuit{X: x, Y: y, Z: z}
+			}
+			w, _ := frontend.NewWitness(a, q)
 			jobs = append(jobs, job{w, SolveCapture(ccs, w, 1)})
+			if sparse && k%4 != 3 && jobs[k].want.Class != "ok" {
+				rep.Fail("c10:sparse-hint-outputs", "a hint output the hint function leaves unassigned is not zero: "+jobs[k].want.Msg, c10Desc{"sparse-hint", t.String()})
+			}
 		}
 		desc := c10Desc{"concurrent-solve", t.String()}
+		if sparse {
+			desc.Scenario = "concurrent-solve (hint leaving outputs unassigned)"
+		}
 		ok := withWatchdog(120*time.Second, func() {
 			var wg sync.WaitGroup
 			var mu sync.Mutex
@@ -268,6 +312,12 @@ func runC10(args []string) int {
 			n1 := 1 + rng.Intn(3)
 			n2 := n1 + rng.Intn(5-n1)
 			progs[c] = [][2]int{{n1, rng.Intn(n1)}, {n2, rng.Intn(n2)}}
+			if si%3 == 1 {
+				// the table grew between two lookups and the later (larger) lookup is solved first (it sits in an earlier
+				// level); queries may lie beyond the entries their own instruction sees
+				n1, n2 = 1+rng.Intn(4), 1+rng.Intn(4)
+				progs[c] = [][2]int{{n1, rng.Intn(4)}, {n2, rng.Intn(4)}}
+			}
 		}
 		// a random interleaving that lets every client finish
 		var sched []int
